@@ -565,6 +565,36 @@ def call(I, fr, name, fname, k, args, depth):
     if name.endswith("arch::x86_64::_tzcnt_u64") or name.endswith("arch::x86_64::_mm_tzcnt_64"):
         a = args[0] & ((1 << 64) - 1)
         return 64 if a == 0 else (a & -a).bit_length() - 1
+    if name.endswith("vec::Vec::<T>::new") or name.endswith("vec::Vec::<T>::with_capacity") or name.endswith("vec::Vec::<T, A>::new_in"):
+        return []
+    if name.endswith("vec::Vec::<T, A>::push"):
+        v = deref(I, args[0])
+        if isinstance(v, list):
+            v.append(args[1])
+            return []
+        raise Unsupported("Vec::push on %r" % (v,))
+    if name.endswith("vec::Vec::<T, A>::pop"):
+        v = deref(I, args[0])
+        return some(v.pop()) if v else NONE()
+    if name.endswith("vec::Vec::<T, A>::clear"):
+        v = deref(I, args[0])
+        del v[:]
+        return []
+    if name.endswith("vec::Vec::<T, A>::truncate"):
+        v = deref(I, args[0])
+        del v[args[1]:]
+        return []
+    if name.endswith("vec::Vec::<T, A>::reserve") or name.endswith("vec::Vec::<T, A>::shrink_to_fit"):
+        return []
+    if name.endswith("slice::<impl [T]>::contains"):
+        sl = as_slice(I, args[0])
+        x = deref(I, args[1])
+        from .minimir import freeze as _fz
+
+        return int(any(_fz(y) == _fz(x) for y in sl.heap[sl.start:sl.start + sl.len]))
+    if name.endswith("slice::<impl [T]>::ends_with"):
+        a, b = as_slice(I, args[0]), as_slice(I, args[1])
+        return int(a.len >= b.len and a.heap[a.start + a.len - b.len:a.start + a.len] == b.heap[b.start:b.start + b.len])
     if name.endswith("vec::Vec::<T, A>::len"):
         v = deref(I, args[0])
         if isinstance(v, list):
@@ -664,6 +694,115 @@ def call(I, fr, name, fname, k, args, depth):
         return Ptr(s.heap, s.start * ps, ps, ps)
     if name.endswith("str::<impl str>::as_bytes"):
         return as_slice(I, args[0])
+    if name.endswith("str::<impl str>::parse"):
+        sl = as_slice(I, args[0])
+        txt = bytes(sl.heap[sl.start:sl.start + sl.len])
+        g = k.get("g", [])
+        tgt = g[-1] if g else ""
+        try:
+            t = txt.decode("utf-8")
+        except UnicodeDecodeError:
+            return err(Opaque("ParseError"))
+        if tgt in ("f64", "f32"):
+            if re.fullmatch(r"[+-]?(inf|infinity|nan)", t, re.I):
+                return ok(float(t.lower().replace("infinity", "inf")))
+            if re.fullmatch(r"[+-]?(\d+\.?\d*|\.\d+)([eE][+-]?\d+)?", t):
+                try:
+                    return ok(float(t))
+                except (ValueError, OverflowError):
+                    return err(Opaque("ParseFloatError"))
+            return err(Opaque("ParseFloatError"))
+        if tgt in INT_TYPES:
+            bits, signed = INT_TYPES[tgt]
+            if re.fullmatch(r"[+-]?\d+" if signed else r"\+?\d+", t):
+                v = int(t)
+                lo, hi = (-(1 << (bits - 1)), (1 << (bits - 1)) - 1) if signed else (0, (1 << bits) - 1)
+                if lo <= v <= hi:
+                    return ok(v)
+            return err(Opaque("ParseIntError"))
+        raise Unsupported("str::parse::<%s>" % tgt)
+    m2 = re.search(r"num::<impl (u8|u16|u32|u64|usize|i8|i16|i32|i64|isize)>::from_str_radix$", name)
+    if m2:
+        ty = m2.group(1)
+        bits, signed = INT_TYPES[ty]
+        sl = as_slice(I, args[0])
+        t = bytes(sl.heap[sl.start:sl.start + sl.len]).decode("utf-8", "replace")
+        radix = args[1]
+        digits = "0123456789abcdefghijklmnopqrstuvwxyz"[:radix]
+        body = t[1:] if t[:1] in ("+", "-") and (signed or t[:1] == "+") else t
+        if not body or any(ch.lower() not in digits for ch in body):
+            return err(Opaque("ParseIntError"))
+        v = int(body, radix) * (-1 if t[:1] == "-" else 1)
+        lo, hi = (-(1 << (bits - 1)), (1 << (bits - 1)) - 1) if signed else (0, (1 << bits) - 1)
+        return ok(v) if lo <= v <= hi else err(Opaque("ParseIntError"))
+    if re.search(r"f64::<impl f64>::is_finite$|num::<impl f64>::is_finite$", name) or name.endswith("f64::is_finite"):
+        import math
+
+        return int(math.isfinite(args[0]))
+    if name.endswith("<impl f64>::is_nan"):
+        import math
+
+        return int(math.isnan(args[0]))
+    if name.endswith("str::<impl str>::to_lowercase") or name.endswith("str::<impl str>::to_ascii_lowercase"):
+        sl = as_slice(I, args[0])
+        return StrBuf(bytes(sl.heap[sl.start:sl.start + sl.len]).decode("utf-8", "surrogateescape").lower().encode("utf-8", "surrogateescape"))
+    if name.endswith("str::<impl str>::to_uppercase"):
+        sl = as_slice(I, args[0])
+        return StrBuf(bytes(sl.heap[sl.start:sl.start + sl.len]).decode("utf-8", "surrogateescape").upper().encode("utf-8", "surrogateescape"))
+    if name.endswith("str::<impl str>::contains") or name.endswith("str::<impl str>::ends_with") or name.endswith("str::<impl str>::find"):
+        a = as_slice(I, args[0])
+        hay = bytes(a.heap[a.start:a.start + a.len])
+        b = deref(I, args[1])
+        meth = name.rsplit("::", 1)[-1]
+        if isinstance(b, int):
+            pat = chr(b).encode("utf-8")
+        elif isinstance(b, (Slice, StrBuf)):
+            bs = as_slice(I, b)
+            pat = bytes(bs.heap[bs.start:bs.start + bs.len])
+        elif isinstance(b, Adt) and b.path.startswith("closure:"):
+            txt = hay.decode("utf-8", "surrogateescape")
+            idxs = [i for i, ch in enumerate(txt) if call_closure(I, args[1], [ord(ch)], depth)]
+            if meth == "contains":
+                return int(bool(idxs))
+            if meth == "ends_with":
+                return int(bool(txt) and (len(txt) - 1) in idxs)
+            return some(len(txt[:idxs[0]].encode("utf-8"))) if idxs else NONE()
+        elif isinstance(b, list):
+            pats = [chr(x).encode("utf-8") for x in b]
+            if meth == "contains":
+                return int(any(p_ in hay for p_ in pats))
+            raise Unsupported("str::%s with char array" % meth)
+        else:
+            raise Unsupported("str::%s pattern %r" % (meth, b))
+        if meth == "contains":
+            return int(pat in hay)
+        if meth == "ends_with":
+            return int(hay.endswith(pat))
+        i = hay.find(pat)
+        return some(i) if i >= 0 else NONE()
+    if name.endswith("Iterator::nth") or name.endswith("Iterator>::nth"):
+        r = NONE()
+        for _ in range(args[1] + 1):
+            r = iter_next(I, args[0], depth)
+            if r.vi == 0:
+                return r
+        return r
+    if name.endswith("Iterator::last") or name.endswith("Iterator>::last"):
+        last = NONE()
+        while True:
+            r = iter_next(I, args[0], depth)
+            if r.vi == 0:
+                return last
+            last = r
+    if name.endswith("string::String::as_bytes"):
+        return as_slice(I, args[0])
+    if name.endswith("str::<impl str>::trim") or name.endswith("str::<impl str>::trim_start") or name.endswith("str::<impl str>::trim_end"):
+        a = as_slice(I, args[0])
+        txt = bytes(a.heap[a.start:a.start + a.len]).decode("utf-8", "surrogateescape")
+        meth = name.rsplit("::", 1)[-1]
+        t2 = txt.strip() if meth == "trim" else txt.lstrip() if meth == "trim_start" else txt.rstrip()
+        off = len(txt[:len(txt) - len(txt.lstrip())].encode("utf-8", "surrogateescape")) if meth != "trim_end" else 0
+        return Slice(a.heap, a.start + off, len(t2.encode("utf-8", "surrogateescape")), 1)
     if name.endswith("str::<impl str>::chars"):
         return CharsIter(as_slice(I, args[0]))
     if name.endswith("str::<impl str>::bytes"):
